@@ -6,13 +6,19 @@
 //	reflect-encode  the reflection encoder (encoding.NewEncoder, called the
 //	                way generated proxies do: bus.NewParams(sig, x).Write(e),
 //	                x passed by value) produces b (maps: b for some order
-//	                of the entries)
+//	                of the entries; the orders of a map of more than two
+//	                entries are not enumerated, the multisets of entries
+//	                are compared instead)
 //	sigreader       signature.Parse(sig).Reader().Read over b followed by a
 //	                sentinel returns exactly b and consumes exactly len(b)
 //	reflect-decode  the reflection decoder (encoding.NewDecoder(...).Decode
 //	                of a pointer to the Go type) over b followed by a
 //	                sentinel succeeds, consumes exactly len(b) and yields a
 //	                value that reads back as x
+//
+// Next to Sig x Val a boundary family (boundary.go) runs lists and maps of
+// exactly 4095 and 4096 entries (4096 = the documented cap of the codecs)
+// through the same three clauses.
 //
 // The Go type of a signature is the one generated code uses (see
 // internal/enum/gobridge): 'm' is value.Value, 'o' object.ObjectReference.
@@ -120,6 +126,11 @@ func encodeClause(d *refmodel.Datum) (string, string) {
 		if bytes.Equal(got, want) {
 			return "", ""
 		}
+	}
+	if hasLargeMap(d) && sameUpToMapOrder(got, d) {
+		// maps of more than two entries (boundary family): the orders are not
+		// enumerated, the multisets of entries are compared
+		return "", ""
 	}
 	return "bytes-differ", fmt.Sprintf("Encode(%s) wrote %d bytes %s, documented serialization is %d bytes %s", rt, len(got), hexs(got), len(first), hexs(first))
 }
@@ -268,25 +279,31 @@ func main() {
 	for _, ep := range entries {
 		fam[ep.name] = run.Family(ep.name)
 	}
-	var nvals, typeMismatch, typeChecked int64
+	var nvals, nboundary, typeMismatch, typeChecked int64
+	var boundaryData []string
 	var mu sync.Mutex
 	var mismatches []string
 
 	finish := func() int {
 		rule := "every signature of Sig(D,2) (outer atoms c C w W i I l L f d b s m o, plus v alone; inner atoms i s b m C; map keys c C w W i I l L b s / i s C; tuples and structs of width <= 2 with at most one composite member) " +
 			"x every datum of Val(sig) x 3 entry points (reflect-encode; sigreader and reflect-decode each under 2 deliveries: sentinel follows/unfragmented, separate EOF/1 byte per read - depth-3 signatures under the first delivery only); " +
-			"evaluations counts (datum, entry point, delivery) executions. A case class is (signature shape with struct names dropped, entry point, outcome); distinct_nontrivial counts the distinct classes executed"
+			"plus the boundary family (families boundary/<entry point>): lists [i] [C] [s] and maps {ii} {Iw} {wb} {si} taken alone, and a large map or list as struct member (c{Iw}W)<S,a,b,c>, list element [{ii}], map value {i{ii}} and tuple member ([i]), " +
+			"each with exactly 4095 and 4096 entries (4096 = listValueMaxSize, the documented cap; nothing above the cap is enumerated), entry j a fixed function of j with distinct keys, through the same 3 entry points and deliveries " +
+			"(reflect-encode of a large map is compared with the documented serialization as a multiset of entries: the output must parse as a datum of the signature, re-encode to itself and equal the datum once every map is sorted by key); " +
+			"evaluations counts (datum, entry point, delivery) executions. A case class is (signature shape with struct names dropped - for the boundary family followed by #n=<entries> -, entry point, outcome); distinct_nontrivial counts the distinct classes executed"
 		mu.Lock()
 		mm := append([]string(nil), mismatches...)
 		mu.Unlock()
 		extra := map[string]interface{}{
 			"depth": depth, "signatures": len(sigs), "values": nvals,
+			"boundary": map[string]interface{}{"documented_cap": sizeCap, "entries": boundaryCounts, "data_executed": nboundary, "data": boundaryData},
 			"go_type_vs_signature_Type": map[string]interface{}{"compared_m_and_o_free_signatures": typeChecked, "different": typeMismatch, "first": mm},
 		}
 		assumptions := []string{
 			"the documented layout is the reference model written from doc/about-qimessaging.md; 8/16-bit integers little-endian fixed width; booleans one byte; 'v' no byte",
 			"the Go type of a signature is the one generated code uses: 'm' = value.Value, 'o' = object.ObjectReference, tuples struct{P0..}, structs with title-cased field names; for signatures without m/o it is compared with signature.Parse(sig).Type() (reported, not decided)",
-			"map keys are integers, booleans and strings (no float keys); maps have at most 2 entries, the encoder may emit them in any order",
+			"map keys are integers, booleans and strings (no float keys); maps have at most 2 entries except in the boundary family (4095 and 4096 entries), the encoder may emit them in any order",
+			"4096 entries (listValueMaxSize of type/encoding and type/value) is the largest list or map the codecs are documented to handle: 4095 and 4096 entries must be handled by the three entry points alike; larger counts are refused on purpose by the repository and are not judged",
 			"dynamic values carry every scalar kind, strings, void, [i], [s], (is), {sI}; 'r' (raw) is not enumerated: the repository's signature grammar has no 'r' atom",
 			"a codec call that does not return within the hang limit (5 executions) is reported as a violation with the clause 'hang' and ends the enumeration",
 		}
@@ -304,6 +321,9 @@ func main() {
 			break
 		}
 	}
+
+	// the boundary family first: a handful of data, never cut by the deadline
+	nboundary, boundaryData = familyBoundary()
 
 	guards := make(chan *enum.Guard, run.Workers+1)
 	for i := 0; i <= run.Workers; i++ {
